@@ -113,6 +113,16 @@ def run(tier, seed):
             src, dst = base + "/src", base + "/dst"
             ew.mk(src, sspec); ew.mk(dst, dspec)
             os.makedirs(src, exist_ok=True); os.makedirs(dst, exist_ok=True)
+            if i % 4 == 1 and not rules:
+                # stale symlinks in the destination: dangling, to another stale entry, to a directory, a loop (each is just an entry to delete)
+                stale_files = [e["p"] for e in dspec if e["k"] == "f" and e["p"] not in {x["p"] for x in sspec}]
+                links = [("zz_dangling", "nowhere/at/all"), ("zz_loop", "zz_loop"), ("zz_dir", ".")]
+                if stale_files:
+                    links.append(("zz_to_stale", stale_files[0]))
+                for name, target in links:
+                    if not os.path.lexists(os.path.join(dst, name)) and name not in {x["p"] for x in sspec}:
+                        os.symlink(target, os.path.join(dst, name))
+                        os.utime(os.path.join(dst, name), ns=(ew.T0NS + 7003 * 10**9,) * 2, follow_symlinks=False)
             ids = ew.Ids()
             args = ["--exclude=%s" % t for _, t in rules]
             case, obs, raw = ew.run_once(sc, src, dst, fl, ids, extra_args=args, select=select_with(rules) if rules else None)
